@@ -13,9 +13,11 @@ trap 'rm -rf "$S"' EXIT
 if [ ! -x bin/mkoverlay ] || [ mkoverlay/main.go -nt bin/mkoverlay ]; then
   (cd mkoverlay && go build -o "$VERIF_DIR/bin/mkoverlay" .) || { echo "HARNESS-ERROR: cannot build mkoverlay" >&2; exit 2; }
 fi
-cp "$REPO_DIR/go.sum" "$VERIF_DIR/go.sum" 2>/dev/null
+# module file pointing at the tree under test (REPO_DIR, default /repo)
+sed "s#=> /repo#=> $REPO_DIR#g" "$VERIF_DIR/go.mod" > "$S/go.mod"
+cat "$REPO_DIR/go.sum" > "$S/go.sum" 2>/dev/null
 bin/mkoverlay -repo "$REPO_DIR" -rt "$VERIF_DIR/rt" -out "$S" > "$S/mkoverlay.log" 2>&1 || { cat "$S/mkoverlay.log" >&2; echo "HARNESS-ERROR: instrumenter failed (the tree does not build?)" >&2; exit 2; }
-go build -overlay "$S/overlay.json" -o "$S/panmc" ./cmd/panmc > "$S/build.log" 2>&1 || { cat "$S/build.log" >&2; echo "HARNESS-ERROR: overlay build failed" >&2; exit 2; }
+go build -modfile="$S/go.mod" -overlay "$S/overlay.json" -o "$S/panmc" ./cmd/panmc > "$S/build.log" 2>&1 || { cat "$S/build.log" >&2; echo "HARNESS-ERROR: overlay build failed" >&2; exit 2; }
 (cd "$REPO_DIR" && go build -o "$S/pangaea" . ) > "$S/build2.log" 2>&1 || { cat "$S/build2.log" >&2; echo "HARNESS-ERROR: CLI build failed" >&2; exit 2; }
 export PANMC_CLI="$S/pangaea" PANMC_SCRATCH="$S" PANMC_VERIF="$VERIF_DIR" PANMC_OVERLAY="$S/overlay.json" PANMC_REPO="$REPO_DIR"
 if [ "$MODE" = "--replay" ]; then
